@@ -1285,8 +1285,110 @@ def user_fields_and_raw_keys_stream(ctx, res):
                 ret(case, outs[0], outs[1])
                 same(dict(case, what="contents afterwards"), typed, model)
 
+def builtin_item_edges_stream(ctx, res):
+    """Built-in item / key / value fields at the edges where "held items pass validation again unchanged" is not obvious, against
+    the built-in replay: (a) file names resolved against a RELATIVE start directory (held items are absolute paths: appending a held
+    item, `lst + list(lst)`, `lst[:] = sorted(lst)`, handing the list to another configuration, rewriting a dict through its own
+    keys must not prefix them again); (b) floats whose zero has a sign — `-0.0`, `0`, `0.0` put in in every order and through two
+    configurations: what is held is `float(x)` of what was put in, sign included (compared by repr); (c) strings stripped of a
+    character set with blanks inside (`'"padded "'`, `'/ usr /'`): held items pass unchanged"""
+    import cincoconfig as cc
+    from cincoconfig.fields.list_field import ListProxy
+    tmp = os.path.realpath(ctx.tmpdir())
+    work = os.path.join(tmp, "c17-edges")
+    os.makedirs(os.path.join(work, "conf.d"), exist_ok=True)
+    cwd = os.getcwd()
+
+    def same(case, typed, model):
+        res.case(stable(case), kind=case["stream"])
+        got = list(typed.items()) if isinstance(typed, dict) else list(typed)
+        want = list(model.items()) if isinstance(model, dict) else list(model)
+        if repr(got) != repr(want):
+            res.violate("C17:contents", "a typed container over a built-in field at an edge of its domain differs from the built-in holding the normalised forms",
+                        dict(case, got=repr(got)[:300], want=repr(want)[:300]))
+    os.chdir(work)
+    try:
+        s = cc.Schema()
+        s.files = cc.ListField(cc.FilenameField(startdir="conf.d"), default=lambda: [])
+        s.by_file = cc.DictField(cc.FilenameField(startdir="conf.d"), cc.IntField(), default=dict)
+        s.titles = cc.ListField(cc.StringField(transform_strip='"'), default=lambda: [])
+        s.segments = cc.ListField(cc.StringField(transform_strip="/"), default=lambda: [])
+        s.regions = cc.DictField(cc.StringField(transform_strip='"'), cc.IntField(), default=dict)
+        s.zeros = cc.ListField(cc.FloatField(), default=lambda: [])
+        s.levels = cc.DictField(cc.StringField(), cc.FloatField(), default=dict)
+        cfg, other = s(), s()
+        norm_f = lambda n: os.path.abspath(os.path.join("conf.d", n))        # noqa: E731
+        cfg.files = ["b.ini", "a.ini"]
+        cfg.files.append("sub/c.ini")
+        model = [norm_f("b.ini"), norm_f("a.ini"), norm_f("sub/c.ini")]
+        st = "relative-startdir"
+        same({"stream": st, "op": "assign / append"}, cfg.files, model)
+        same({"stream": st, "op": "lst + list(lst)"}, cfg.files + list(cfg.files), model + model)
+        cfg.files.append(cfg.files[0])
+        model.append(model[0])
+        same({"stream": st, "op": "append(lst[0])"}, cfg.files, model)
+        cfg.files[:] = sorted(cfg.files)
+        model[:] = sorted(model)
+        same({"stream": st, "op": "lst[:] = sorted(lst)"}, cfg.files, model)
+        cfg.files.insert(0, cfg.files[-1])
+        model.insert(0, model[-1])
+        same({"stream": st, "op": "insert(0, lst[-1])"}, cfg.files, model)
+        other.files.extend(cfg.files)
+        same({"stream": st, "op": "other.extend(lst)"}, other.files, model)
+        other.files = list(cfg.files)
+        same({"stream": st, "op": "other = list(lst)"}, other.files, model)
+        cfg.files += tuple(cfg.files[:1])
+        model += model[:1]
+        same({"stream": st, "op": "+= tuple(lst[:1])"}, cfg.files, model)
+        cfg.by_file.update({"x.ini": 1, "y.ini": 2})
+        dmodel = {norm_f("x.ini"): 1, norm_f("y.ini"): 2}
+        for k in list(cfg.by_file):
+            cfg.by_file[k] += 10
+        for k in list(dmodel):
+            dmodel[k] += 10
+        same({"stream": st, "op": "for k in list(d): d[k] += 10"}, cfg.by_file, dmodel)
+        other.by_file = dict(cfg.by_file)
+        same({"stream": st, "op": "other = dict(d)"}, other.by_file, dmodel)
+        # (c)
+        st = "strip-set-with-blanks-inside"
+        cfg.titles = ['"padded "', "plain", '" two"']
+        tmodel = ["padded ", "plain", " two"]
+        same({"stream": st, "op": "assign"}, cfg.titles, tmodel)
+        same({"stream": st, "op": "lst + list(lst)"}, cfg.titles + list(cfg.titles), tmodel + tmodel)
+        cfg.titles.append(cfg.titles[0])
+        tmodel.append(tmodel[0])
+        same({"stream": st, "op": "append(lst[0])"}, cfg.titles, tmodel)
+        res.case(None, kind=st)
+        if cfg.titles.count("padded ") != 2:
+            res.violate("C17:return-value", "count() of a held item differs from the built-in", {"stream": st, "op": "count", "got": cfg.titles.count("padded ")})
+        other.titles = list(cfg.titles)
+        same({"stream": st, "op": "other = list(lst)"}, other.titles, tmodel)
+        cfg.segments = ["/ usr /", "/local/"]
+        cfg.segments.insert(0, cfg.segments[0])
+        same({"stream": st, "op": "insert(0, lst[0])"}, cfg.segments, [" usr ", " usr ", "local"])
+        cfg.regions.update({'"north "': 1, "south": 2})
+        for k in list(cfg.regions):
+            cfg.regions[k] = cfg.regions[k] * 10
+        same({"stream": st, "op": "rewrite dict through its own keys"}, cfg.regions, {"north ": 10, "south": 20})
+        # (b)
+        st = "signed-zeros"
+        for order in ([-0.0, 0, 0.0], [0, -0.0, 0.0, -0.0], [0.0, -0.0], [1.5, 0.0, -0.0, 0, -0.0, "-0.0", 2]):
+            for which in (cfg, other):
+                which.zeros = []
+                zm = []
+                for x in order:
+                    which.zeros.append(x)
+                    zm.append(float(x))
+                same({"stream": st, "op": "append in order", "order": repr(order)}, which.zeros, zm)
+                same({"stream": st, "op": "lst + list(lst)", "order": repr(order)}, which.zeros + list(which.zeros), zm + zm)
+        cfg.levels.update({"down": -0.0, "up": 0.0, "flat": 0, "dip": -0.0})
+        same({"stream": st, "op": "dict values"}, cfg.levels, {"down": -0.0, "up": 0.0, "flat": 0.0, "dip": -0.0})
+    finally:
+        os.chdir(cwd)
+
 def run(ctx, n_quick=400, n_thorough=20000):
     res = Result()
+    guard(res, "C17", builtin_item_edges_stream, ctx, res)
     guard(res, "C17", user_fields_and_raw_keys_stream, ctx, res)
     guard(res, "C17", list_stream, ctx, res, ctx.n(n_quick, n_thorough))
     guard(res, "C17", dict_stream, ctx, res, ctx.n(n_quick, n_thorough))
